@@ -54,6 +54,9 @@ def _load_seeds_from_file_object(fh: 'BinaryIO'):
     fh.seek(0x10)
     for _ in range(seed_count):
         entry = fh.read(0x20)
+        if len(entry) < 0x20:
+            # the file ends before the number of entries its header announces
+            break
         title_id = readle(entry[0:8])
         _seeds[title_id] = entry[0x8:0x18]
 
